@@ -65,6 +65,11 @@ finally:
 memo.pop("__builtins__", None) if False else None
 agree = (got_v == exp_v) and (got_v != 0 or memo == exp_memo)
 if exp_v >= 100 and got_v >= 100: agree = True if got_v == exp_v else False
+if "a-'?'-axis-is-passed-only-under-a-leaf-label" in str(payload.get("obligation", "")):
+    # this clause comes from C16's statement, not from the fold that mirrors the code: a '?' axis met while no leaf label is in force must raise AnnotationError
+    if name == "_NamedDim" and bool(getattr(real, "treepath", False)) and not has_label:
+        exp_v = 2
+        agree = got_v == 2
 witness_note = None
 if agree and name == "_SymbolicDim" and t1 == 0 and t2 == 0:
     # the VC treats the value of a user expression as "a number"; the model's integer is one realisation. Non-integral values of the same
